@@ -28,29 +28,26 @@ def OrderFreeAsSet {α β : Type} (site : List α → List β) : Prop :=
 def isPermOf {α : Type} [BEq α] (a b : List α) : Bool :=
   a.length == b.length && a.all (fun x => a.count x == b.count x)
 
-/-- Exception class of every `join` site and of `siteOrBound`: the set has two or more elements. -/
+/-- Exception class of the sites that let the order through (`siteTryDefNodes`, `siteDefNodes`,
+`siteOrBound`, `siteDisallowedKinds`): the set has two or more elements. -/
 def D10_twoOrMore {α : Type} (elems : List α) : Bool := decide (2 ≤ elems.length)
-
-/-- Exception class of `siteProtocolFirstFail`: two or more members fail. -/
-def D10_twoFailing (outcome : String → MemberOutcome) (members : List String) : Bool :=
-  decide (2 ≤ (members.filter fun m => outcome m != .ok).length)
 
 /-- Exception class of `siteFirstSuccess`: two or more bases succeed. -/
 def D10_twoSucceed {α β : Type} (attempt : α → Option β) (bases : List α) : Bool :=
   decide (2 ≤ (bases.filter fun b => (attempt b).isSome).length)
 
-/-- Exception class of `siteOrNarrow`: two or more constraints. -/
-def D10_twoConstraints (order : List Nat) : Bool := decide (2 ≤ order.length)
-
 /-! ### The registry of modelled sites
 
 One row per set-iteration site of the anchored files: (file, function, fingerprint of the scan,
-the site function of `Core/Cache.lean` that models it, exception class or `-`). The obligation
+the site function of `Core/Cache.lean` that models it, exception class or `-`). The five sites
+repaired in /repo no longer iterate a set in an order-revealing way: `bind_arguments`,
+`accept_mapping_args_no_mvv` and `OrConstraint.apply` have no row any more, the two protocol sites
+are `sorted(...)` rows. The obligation
 `sites_registered` (Proofs/C10.lean) says every site the scan finds in the live tree is listed. -/
 
 inductive SiteKind
-  | join | firstFail | firstSuccess | orNarrow | defNodes | tryDefNodes | orBound   -- order can show
-  | anyAll | setBuild | lookupMap | singleton | sortedJoin | emit | closure | printSeq
+  | join | firstSuccess | defNodes | tryDefNodes | orBound | printSeq             -- order can show
+  | anyAll | setBuild | lookupMap | singleton | sortedJoin | sortedFirstFail | emit | closure
   deriving DecidableEq, Repr
 
 def modelledSites : List (String × String × String × SiteKind × String) := [
@@ -59,8 +56,6 @@ def modelledSites : List (String × String × String × SiteKind × String) := [
   ("pyanalyze/checker.py", "Checker._build_type_object", "passed-to-_get_protocol_members:typeshed_bases", .setBuild, "-"),
   ("pyanalyze/checker.py", "Checker._build_type_object", "setbuild:bases", .setBuild, "-"),
   ("pyanalyze/checker.py", "Checker._get_recursive_typeshed_bases", "pop:to_do", .closure, "-"),
-  ("pyanalyze/format_strings.py", "PercentFormatString.accept_mapping_args_no_mvv", "join:keys_left", .join, "joinKeysLeft"),
-  ("pyanalyze/format_strings.py", "PercentFormatString.accept_mapping_args_no_mvv", "setbuild:cs_map.keys() - seen_keys", .setBuild, "-"),
   ("pyanalyze/format_strings.py", "_parse_replacement_field", "sorted:allowed_specials", .sortedJoin, "-"),
   ("pyanalyze/format_strings.py", "_parse_replacement_field", "sorted:allowed_specials#1", .sortedJoin, "-"),
   -- prints `Unused method: …` lines to stdout in set order (only with --find-unused-attributes; not a diagnostic)
@@ -73,7 +68,6 @@ def modelledSites : List (String × String × String × SiteKind × String) := [
   ("pyanalyze/name_check_visitor.py", "NameCheckVisitor._constraint_from_compare_op", "next-iter:predicate_types", .singleton, "-"),
   ("pyanalyze/name_check_visitor.py", "NameCheckVisitor._maybe_show_missing_f_error", "anyall:names", .anyAll, "-"),
   ("pyanalyze/name_check_visitor.py", "NameCheckVisitor.constraint_from_condition", "passed-to-_check_boolability:disabled", .anyAll, "-"),
-  ("pyanalyze/signature.py", "Signature.bind_arguments", "join:extra_kwargs", .join, "joinExtraKwargs"),
   ("pyanalyze/signature.py", "Signature.check_call_with_bound_args", "passed-to-resolve_bounds_map:self.all_typevars", .lookupMap, "-"),
   ("pyanalyze/signature.py", "Signature.get_default_return", "dictbuild:self.all_typevars", .lookupMap, "-"),
   -- text of an InvalidSignature exception; no source program reaches it
@@ -88,12 +82,8 @@ def modelledSites : List (String × String × String × SiteKind × String) := [
   ("pyanalyze/stacked_scopes.py", "FunctionScope.set", "for:self.name_to_composites[varname]", .lookupMap, "-"),
   ("pyanalyze/stacked_scopes.py", "FunctionScope.suppressing_subscope", "dictbuild:all_keys", .lookupMap, "-"),
   ("pyanalyze/stacked_scopes.py", "FunctionScope.suppressing_subscope", "list:nodes - old_defn_nodes.get(key, set())", .tryDefNodes, "tryDefNodeOrder"),
-  ("pyanalyze/stacked_scopes.py", "OrConstraint.apply", "list:set(constraints)", .orNarrow, "orConstraintOrder"),
-  ("pyanalyze/type_object.py", "TypeObject.__str__", "join:self.protocol_members", .join, "protocolMembersOrder"),
-  ("pyanalyze/type_object.py", "TypeObject._is_compatible_with_protocol", "for:self.protocol_members", .firstFail, "protocolMembersOrder"),
-  -- the two rows a `sorted(self.protocol_members)` repair of the previous two sites produces
   ("pyanalyze/type_object.py", "TypeObject.__str__", "sorted:self.protocol_members", .sortedJoin, "-"),
-  ("pyanalyze/type_object.py", "TypeObject._is_compatible_with_protocol", "sorted:self.protocol_members", .sortedJoin, "-"),
+  ("pyanalyze/type_object.py", "TypeObject._is_compatible_with_protocol", "sorted:self.protocol_members", .sortedFirstFail, "-"),
   ("pyanalyze/type_object.py", "TypeObject.can_assign", "for:other.artificial_bases", .firstSuccess, "artificialBaseChoice"),
   ("pyanalyze/type_object.py", "TypeObject.can_assign", "for:other.base_classes", .anyAll, "-"),
   ("pyanalyze/type_object.py", "TypeObject.has_attribute", "for:self.base_classes", .anyAll, "-"),
@@ -110,8 +100,7 @@ def sitesRegistered (scanned : List (String × String × String)) : Bool :=
 /-! ### Classifying a textual difference between two renderings of the same diagnostic
 
 A message is cut into tokens at the separators of lists and unions; two renderings *differ by
-order only* when they differ and their token lists are reorderings of each other. Which site the
-difference belongs to is read off the message template. -/
+order only* when they differ and their token lists are reorderings of each other. -/
 
 def isSep (c : Char) : Bool :=
   c == ' ' || c == ',' || c == '|' || c == '\'' || c == '"' || c == '[' || c == ']' || c == '(' || c == ')' || c == '\n'
@@ -129,30 +118,11 @@ def D10_orderOnly (a b : String) : Bool := a != b && isPermOf (tokens a) (tokens
 
 def hasSub (s pat : String) : Bool := (s.splitOn pat).length > 1
 
-/-- The head of a rendered diagnostic: the text before ` (code: …)` (detail lines follow it). -/
-def headOf (s : String) : String := (s.splitOn " (code: ").headD s
-
-/-- The detail part of a rendered diagnostic (after the code). -/
-def detailOf (s : String) : String := " (code: ".intercalate ((s.splitOn " (code: ").drop 1)
-
-/-- Two renderings of a protocol incompatibility differ by member order only: the heads list the
-same members in another order (or are equal), and the detail lines — which name the *first*
-failing member of that order — are both protocol-member details (or equal). -/
-def D10_protocolOrderOnly (a b : String) : Bool :=
-  a != b && hasSub a "(Protocol with members" && hasSub b "(Protocol with members" &&
-  (headOf a == headOf b || D10_orderOnly (headOf a) (headOf b)) &&
-  (detailOf a == detailOf b ||
-    ((hasSub (detailOf a) "Value of protocol member" || hasSub (detailOf a) "has no attribute") &&
-     (hasSub (detailOf b) "Value of protocol member" || hasSub (detailOf b) "has no attribute")))
-
-/-- The site class a purely order-related difference belongs to, by message template. `hint` is the
-feature of the generated program the diagnostic stems from (`or`, `try`, `defnodes`, or empty). -/
+/-- The site class a purely order-related difference belongs to. `hint` is the feature of the
+generated program the diagnostic stems from (`try`, `defnodes`); only the two classes whose repair
+was not applied remain — an order-only difference anywhere else is outside every class. -/
 def orderClass (hint a b : String) : String :=
-  if D10_protocolOrderOnly a b then "protocolMembersOrder"
-  else if !D10_orderOnly a b then "-"
-  else if hasSub a "Got unexpected keyword arguments" then "joinExtraKwargs"
-  else if hasSub a "No value specified for keys" then "joinKeysLeft"
-  else if hint == "or" then "orConstraintOrder"
+  if !D10_orderOnly a b then "-"
   else if hint == "try" then "tryDefNodeOrder"
   else if hint == "defnodes" then "defNodeSetOrder"
   else "-"
@@ -187,21 +157,6 @@ def rankOK (W : World) (rk : Rank) : Bool :=
 /-- Exception class: the protocols of the world are recursive w.r.t. the given rank. -/
 def D10_cyclic (W : World) (rk : Rank) : Bool := !rankOK W rk
 
-/-- Exception class: the history (with the query) mixes the two modes. -/
-def D10_modeMix (h : List Query) (q : Query) : Bool := h.any fun q' => q'.ex != q.ex
-
-/-- No listed pair and no nested check of the world uses generic arguments other than variant 0. -/
-def worldNoArgs (W : World) : Bool :=
-  W.reqs.all fun e => e.1.2.1 == 0 && e.2.all fun m => m.all fun atm =>
-    match atm with
-    | .sub _ a' _ => a' == 0
-    | _ => true
-
-/-- Exception class: some protocol is used with generic arguments other than variant 0, in a query
-or in a nested check of the world (the positive cache does not tell the variants apart). -/
-def D10_selfArgs (W : World) (h : List Query) (q : Query) : Bool :=
-  (q :: h).any (fun q' => q'.a != 0) || !worldNoArgs W
-
 /-- The fuel exceeds the rank of every top-level query (Python has no fuel: it recurses until the
 guard fires, which for well-founded worlds is after at most `rank` nested calls). -/
 def fuelOK (W : World) (rk : Rank) (fuel : Nat) (qs : List Query) : Bool :=
@@ -225,16 +180,14 @@ def iter {α : Type} (f : α → α) : Nat → α → α
 def gfpCompat (W : World) (ex : Bool) : List (Pid × Nat × Vid) :=
   iter (gfpStep W ex) W.reqs.length (W.reqs.map (·.1))
 
-/-- The class of a history dependence `(h, q)` in world `W`, or `-`. -/
+/-- The class of a history dependence `(h, q)` in world `W`, or `-`: the only cause left is a
+positive answer cached under a recursion-guard assumption, which needs recursive protocols and
+disappears when nothing is cached while an assumption is in force. -/
 def historyClass (W : World) (rk : Rank) (fuel : Nat) (h : List Query) (q : Query) : String :=
   let fresh := answerFresh W fuel q
   if answerAfter W fuel h q == fresh then "-"
-  else if D10_modeMix h q && answerAfter2 W true false false fuel h q == fresh then "cacheIgnoresMode"
-  else if D10_selfArgs W h q && answerAfter2 W false true false fuel h q == fresh then "protoCacheKey"
-  else if D10_cyclic W rk && answerAfter2 W false false true fuel h q == fresh then
+  else if D10_cyclic W rk && answerAfter2 W true true true fuel h q == fresh then
     "cacheUnderFailedAssumption"
-  else if (D10_modeMix h q || D10_selfArgs W h q || D10_cyclic W rk)
-      && answerAfter2 W true true true fuel h q == fresh then "cacheSeveralCauses"
   else "-"
 
 end Pya.C10
